@@ -6,6 +6,8 @@ package main
 import (
 	"fmt"
 	"os"
+	"runtime/pprof"
+	"time"
 
 	"verif/checks"
 	"verif/explore"
@@ -41,6 +43,25 @@ func main() {
 		explore.ServeWorker(ck.Worker)
 	case "replay":
 		os.Exit(checks.Replay(os.Args[2]))
+	case "bench":
+		// verif bench <id> <task.json> <n> <cpu.prof>: run one worker task n times under the profiler
+		ck := checks.Registry[os.Args[2]]
+		task, _ := os.ReadFile(os.Args[3])
+		n := 1
+		fmt.Sscan(os.Args[4], &n)
+		f, _ := os.Create(os.Args[5])
+		pprof.StartCPUProfile(f)
+		t0 := time.Now()
+		var out []byte
+		for i := 0; i < n; i++ {
+			out = ck.Worker(task)
+		}
+		pprof.StopCPUProfile()
+		f.Close()
+		if len(out) > 300 {
+			out = out[:300]
+		}
+		fmt.Printf("%d runs in %v\n%s\n", n, time.Since(t0), out)
 	default:
 		os.Exit(2)
 	}
